@@ -235,3 +235,94 @@ def dispatch(ctx):
     else:
         ctx.inconclusive.append("vacuity: no file read")
     ctx.sample({"paths": E.paths})
+
+
+# ---------------------------------------------------------------------------------------
+# O4: an INCLUDEd file is read with the settings of the including file (source form, length limit, documentation marks)
+# ---------------------------------------------------------------------------------------
+def _run_include(fixed, limit, marks, encoding):
+    import inspect
+    import ford.reader as rd
+    from fv import standins as S
+
+    real = rd.FortranReader
+    sig = inspect.signature(real.__init__)
+    made = []
+
+    class Recorder:
+        def __init__(self, *a, **k):
+            b = sig.bind(None, *a, **k)
+            b.apply_defaults()
+            made.append(dict(b.arguments))
+
+        def __iter__(self):
+            return iter(["integer :: from_include"])
+
+    me = object.__new__(real)
+    me.name = "/proj/src/main.f"
+    me.pending = ["include 'decls.inc'", "x = 1"]
+    me.inc_dirs = ["/proj/inc"]
+    me.docmark, me.predocmark, me.docmark_alt, me.predocmark_alt = marks
+    me.fixed, me.length_limit, me.encoding = fixed, limit, encoding
+    old, oldisfile = rd.FortranReader, rd.os.path.isfile
+    rd.FortranReader = Recorder
+    rd.os.path.isfile = lambda p: True
+    try:
+        real.include(me)
+    finally:
+        rd.FortranReader, rd.os.path.isfile = old, oldisfile
+    return made, list(me.pending)
+
+
+def replay_include(w):
+    made, pending = _run_include(w["fixed"], w["length_limit"], tuple(w["marks"]), w["encoding"])
+    a = made[0] if made else {}
+    got = {"fixed": a.get("fixed"), "length_limit": a.get("length_limit"), "marks": [a.get("docmark"), a.get("predocmark"), a.get("docmark_alt"), a.get("predocmark_alt")],
+           "encoding": a.get("encoding"), "inc_dirs": a.get("inc_dirs")}
+    want = {"fixed": w["fixed"], "length_limit": w["length_limit"], "marks": list(w["marks"]), "encoding": w["encoding"], "inc_dirs": ["/proj/inc"]}
+    return got != want or pending[:1] != ["integer :: from_include"], {"reader of the included file created with": got, "settings of the including file": want,
+                                                                        "pending statements": pending}
+
+
+@obligation("C14", "O4.included-file-settings", engine="SX(CV)", timeout=300)
+def include_settings(ctx):
+    """FortranReader.include with symbolic settings of the including file (fixed form or not, length limit on/off, documentation marks,
+    encoding): the reader of the included file gets the same ones, and its statements come before the rest of the including file"""
+    import ford.reader as rd
+
+    ctx.encode_fn(rd.FortranReader.include)
+    ctx.stubs.append("the nested FortranReader is a recorder bound with the real constructor's signature; os.path.isfile answers True")
+    ctx.bounds.update({"fixed": [True, False], "length_limit": [True, False], "mark sets": 2, "encodings": 2})
+
+    def h(E):
+        fixed = CV.choice(E, "fixed", [True, False])
+        limit = CV.choice(E, "limit", [True, False])
+        marks = CV.choice(E, "marks", [("!", ">", "*", "|"), ("^", "<", "~", "#")])
+        enc = CV.choice(E, "enc", ["utf-8", "latin-1"])
+        E.e.snapshot = lambda m: {"fixed": choice.value_in_model(m, fixed), "length_limit": choice.value_in_model(m, limit),
+                                  "marks": list(choice.value_in_model(m, marks)), "encoding": choice.value_in_model(m, enc)}
+        made, pending = _run_include(fixed, limit, marks, enc)
+        E.reachable("included")
+        E.require(len(made) == 1, "the included file is not read exactly once")
+        a = made[0]
+        E.require(choice.apply(lambda x, y: x == y, a.get("fixed"), fixed), "source form of the included file differs from the including file's")
+        E.require(choice.apply(lambda x, y: x == y, a.get("length_limit"), limit), "fixed_length_limit is not passed on to the included file")
+        E.require(choice.apply(lambda d, p_, da, pa, mk: (d, p_, da, pa) == tuple(mk), a.get("docmark"), a.get("predocmark"), a.get("docmark_alt"),
+                               a.get("predocmark_alt"), marks), "documentation marks are not passed on to the included file")
+        E.require(choice.apply(lambda x, y: x == y, a.get("encoding"), enc), "encoding is not passed on to the included file")
+        E.require(a.get("inc_dirs") == ["/proj/inc"], "include directories are not passed on")
+        E.require(pending[:1] == ["integer :: from_include"], "statements of the included file do not come first")
+
+    E = sym.Engine(ctx, max_paths=500, incremental=True)
+    found = E.explore(h)
+    seen = set()
+    for (label, m, pc), snap in zip(found, E.snapshots):
+        if label in seen or not snap:
+            continue
+        seen.add(label)
+        ctx.report(label, snap, replay_include)
+    if E.reached.get("included"):
+        ctx.twins += 1
+    else:
+        ctx.inconclusive.append("vacuity: include never executed")
+    ctx.sample({"paths": E.paths})
